@@ -53,6 +53,13 @@ def pool(seed: int) -> list[dict]:
         {"df": f3, "body": {"col_rel_width": [1, 2, 3], "text_color": "black"}, "headers": [hdr], "page": {}},
         # 9: multi-section without colours
         {"sections": [{"df": f5, "body": {}}, {"df": f3, "body": {}}], "page": {}},
+        # 10: footnote table on every page of a paginated document whose body closes pages with an empty border_last
+        {"df": paged, "body": {"border_last": ""}, "page": {"nrow": 8, "page_footnote": "all"}, "footnote": {"text": ["F all"]}},
+        # 11: the footnote spec of 3 (one shared object) but closed by a table-rendered source; shares that source with 12
+        {"df": f3, "body": {}, "footnote": {"text": ["F three"], "text_color": "tan"},
+         "source": {"text": ["R shared"], "as_table": True}, "page": {}},
+        # 12: the shared source, on a page that ends without a closing border
+        {"df": f3b, "body": {}, "source": {"text": ["R shared"], "as_table": True}, "page": {"border_last": ""}},
     ]
 
 
